@@ -371,7 +371,9 @@ func (r *Rec) writeViolation(sp *ReplaySpec) {
 	if len(d) > 600 {
 		d = d[:600] + "…"
 	}
-	fmt.Printf("VIOLATION-KEY property=%s replay=%s key=%q detail=%q\n", r.ID, p, sp.Key, d)
+	kb, _ := json.Marshal(sp.Key)
+	db, _ := json.Marshal(d)
+	fmt.Printf("VIOLATION-KEY property=%s replay=%s key=%s detail=%s\n", r.ID, p, kb, db) // JSON strings: the driver reads them back
 }
 
 // Unknown filters keyed differences, returning those no known finding masks.
